@@ -1,6 +1,7 @@
 package props
 
 import (
+	"bytes"
 	"fmt"
 	"math/rand/v2"
 	"sort"
@@ -360,6 +361,28 @@ type c06stats struct {
 	panics    int
 
 	textShapes bool // inputs with empty / two-rune texts (see c06input)
+
+	// libLL, if set, is the lookup list as gtab.Read returns it from the
+	// library's own bytes: the library applies this one, the reference the
+	// structure it was written from
+	libLL gtab.LookupList
+}
+
+// c06readBack sends the lookup list through Info.Encode and gtab.Read.
+func c06readBack(list *otlmini.List) gtab.LookupList {
+	var out gtab.LookupList
+	mon.Try(func() {
+		info := &gtab.Info{ScriptList: gtab.ScriptListInfo{}, FeatureList: gtab.FeatureListInfo{}, LookupList: list.LL}
+		tp := gtab.Type(gtab.TypeGsub)
+		if list.Gpos {
+			tp = gtab.Type(gtab.TypeGpos)
+		}
+		back, err := gtab.Read(bytes.NewReader(info.Encode()), tp)
+		if err == nil && len(back.LookupList) == len(list.LL) {
+			out = back.LookupList
+		}
+	})
+	return out
 }
 
 func (s *c06stats) add(st *shaper.Stats) {
@@ -436,7 +459,11 @@ func c06check(k *mon.Case, st *c06stats, a *otlmini.Alphabet, list *otlmini.List
 	ref := shaper.Apply(list.LL, a.Gdef, list.Lookups, in)
 	var out []glyph.Info
 	libIn := c06copy(in)
-	if k.Guard("Context.Apply", func() { out = gtab.NewContext(list.LL, a.Gdef, list.Lookups).Apply(libIn) }) {
+	libLL := list.LL
+	if st.libLL != nil {
+		libLL = st.libLL
+	}
+	if k.Guard("Context.Apply", func() { out = gtab.NewContext(libLL, a.Gdef, list.Lookups).Apply(libIn) }) {
 		st.panics++
 		return st.panics < 8
 	}
@@ -568,6 +595,12 @@ func runC06(c *mon.Ctx) {
 		desc := c06describe(list.LL, list.Lookups, alpha.Gdef)
 		k.Input([]byte(desc))
 		st := &c06stats{undefined: map[string]int{}, textShapes: r.IntN(4) == 0}
+		if k.Index%3 == 2 {
+			// as applications get it: the lookups were read from a file
+			if st.libLL = c06readBack(list); st.libLL != nil {
+				k.Class("random:lookups-read-back")
+			}
+		}
 		all := alpha.All()
 		for j := 0; j < 10; j++ {
 			gids := c06randomSeq(r, alpha, all)
@@ -595,7 +628,7 @@ func runC06(c *mon.Ctx) {
 	for fs := otlmini.FlagSet(0); fs < otlmini.NumFlagSets; fs++ {
 		c.Require("flags:" + fs.String())
 	}
-	c.Require("skipped-glyphs-inside-match", "ligature-later-candidate-across-2-skipped",
+	c.Require("random:lookups-read-back", "skipped-glyphs-inside-match", "ligature-later-candidate-across-2-skipped",
 		"calib:gsub-section1-reproduced", "calib:gsub-section2-reproduced", "calib:gsub-section3-reproduced",
 		"calib:gsub-section5-reproduced", "calib:gpos-reproduced", "calib:flags-reproduced",
 		"nested-depth:1", "nested-depth:2",
